@@ -14,7 +14,7 @@ ASSUMPTIONS = [
 
 
 def bounds(tier):
-    return {'stories_N': '2..4' if tier == 'quick' else '2..5', 'sources_k': '<=2' if tier == 'quick' else '<=3',
+    return {'stories_N': '0..4' if tier == 'quick' else '0..8', 'sources_k': '<=2' if tier == 'quick' else '<=3',
             'id_length': 1, 'id_alphabet': 'U+0020..U+007E',
             'layout': 'lead in {0,2,4} leading non-story children, one non-story child at a symbolic gap, '
                       '0..1 trailing', 'per_cell_timeout_s': 60 if tier == 'quick' else 600}
@@ -206,6 +206,17 @@ def cells(tier):
         out.append(mk('EAStoryMove', big, k=2, gap=None, rname='multi', timeout=T))
         out.append(mk('EAStorySwap', big, k=2, gap=None, timeout=T))
         out.append(mk('roStorySend', big, gap=None, timeout=T))
+    else:
+        # thorough: six to eight stories for the position-sensitive types (no gap child)
+        for n_ in (6, 7, 8):
+            for op in ('roStoryMove', 'EAStoryMove'):
+                out.append(mk(op, n_, gap=None, rname='any', timeout=T))
+            out.append(mk('EAStoryMove', n_, k=2, gap=None, rname='multi', timeout=T))
+            out.append(mk('EAStorySwap', n_, k=2, gap=None, timeout=T))
+            out.append(mk('roStorySend', n_, gap=None, timeout=T))
+            out.append(mk('roStoryReplace', n_, k=2, gap=None, timeout=T))
+            out.append(mk('EAStoryDelete', n_, k=2, gap=None, timeout=T))
+        out.append(mk('EAStoryMove', 6, k=3, gap=None, rname='multi', timeout=T))
     # layouts: identifying children after the stories (lead=0), richer metadata (lead=4)
     for op in ('roStoryMove', 'roStoryInsert', 'roStoryReplace', 'EAStorySwap', 'roStorySend', 'EAStoryMove'):
         k = 2 if op == 'EAStorySwap' else 1
